@@ -14,7 +14,7 @@ class C12(core.Check):
     pid = 'C12'
     unproved = [
         "spans that contain a fill (the property's hypothesis allows one per trading-candle span): paired-run oracle",
-        'equality of the candle stores of the two simulators at chunk boundaries: C07 oracle',
+        'the candle stores of the two simulators: stores_agree (two engines that satisfy the C07 run invariant for the same stored minutes give a reader the same candles of every timeframe, and equal stored arrays on a window boundary) — that both simulators store the same NORMALISED minutes is the C07 run-level theorems for each of them plus correspondence, not one theorem',
     ]
     gen_keys = ['jesse/services/candle.py:split_candle', 'jesse/modes/backtest_mode.py:_get_fixed_jumped_candle']
     rule = ('correspondence: single-symbol sessions in BOTH simulators on the real engine and on the Lean engine model '
